@@ -11,7 +11,9 @@ bytes after a NUL do not matter.  parse_sbml / SbmlParser: the same oracle, with
 from checks import parsecommon as pc
 import vlib
 
-PROOF_MODULES = []   # coq/Parse/*.v are compiled directly with coqc by parsecommon.build_coq (see ORDER there)
+# built by ctx.prove (make) once coq/Parse/*.v are listed in coq/_CoqProject; until then parsecommon.prepare
+# compiles them directly with coqc (parsecommon.ORDER) and proof_modules() is empty
+PROOF_MODULES = pc.PROOF_VO
 OBLIGATIONS = ["C18/P_parse_total.v", "C18/P_parser_stateless.v", "C18/P_lex_stops_at_nul.v", "C18/P_nonvacuous.v"]
 
 ALPHABET = (list(b"+-*/^@(),.~<>=!&|#$%?:;'\"\\[]{}`") + list(b"0123456789") + list(b"exyzEIpi_") +
@@ -177,7 +179,7 @@ def nontrivial(ins):
 def run(ctx):
     ctx.gate(["Parse", "C18"])
     drv, model = pc.prepare(ctx)
-    ctx.prove(PROOF_MODULES, OBLIGATIONS)
+    ctx.prove(pc.proof_modules(), OBLIGATIONS)
     if drv is None or model is None:
         return
     quick = ctx.tier == "quick"
